@@ -1668,8 +1668,10 @@ def main(R):
         "set_at_/update_at_ indices are generated without Ellipsis (the dense class applies them to leaves of higher rank)",
         "theorems: full for ints/slices/None/Ellipsis at any nesting depth; one advanced index BEFORE or AFTER the stack "
         "dim (flat stacks of plain members); "
-        "transpose outside the D26 region, unsqueeze, insert/append, cat offsets; slice-write plan. Masks on / across the "
-        "stack dim, tensors on / before it, permute/squeeze/unbind/split/repeat/expand/view, update*, stack: correspondence only",
+        "transpose (every pair of dims), unsqueeze, insert/append, cat(out=) offsets; write plans for a slice and for an "
+        "integer tensor on stack dim 0. Masks on / across the stack dim, tensors on it, permute/squeeze/unbind/split/"
+        "repeat/expand/view, update*, stack: correspondence only",
+        "the model is in the state AFTER the fix: commits C08-D13/D23/D26/D27/D28/D29/D30/D31/D32/D33/D34/D35 (fixes/C08)",
     ]
     R.trusted = ["Spec/C08_Dense.res_shape/src_of validated against real torch indexing in this run (count in extra)",
                  "Spec/PySlice (shared, validated by C18 against CPython)"]
@@ -1724,8 +1726,8 @@ def main(R):
                     elif not f["mask_covers_stack_dim"] and not f["int_tensor_alone_on_stack_dim_0"] and \
                             adv_is_before(c["tree"], items):
                         R.count("theorem-domain:C08_getitem_adv_before_stack_dim")
-        if k == "transpose" and r["verdict"] == "ok" and c["tree"][2][0][0] == "td" and signature(c, r)["pattern"] == "none":
-            R.count("theorem-domain:C08_transpose_partial")
+        if k == "transpose" and r["verdict"] == "ok" and c["tree"][2][0][0] == "td":
+            R.count("theorem-domain:C08_transpose")
         if k == "unsqueeze" and r["verdict"] == "ok" and c["tree"][2][0][0] == "td":
             R.count("theorem-domain:C08_unsqueeze")
         if r["verdict"] == "fail":
